@@ -587,8 +587,12 @@ impl BuiltInFunction {
 
                 let mut result = String::with_capacity(s.len().saturating_sub(top - bottom));
 
-                result.push_str(&s[..bottom]);
-                result.push_str(&s[top..]);
+                let (Some(head), Some(tail)) = (s.get(..bottom), s.get(top..)) else {
+                    bail!("string deletion range `{bottom}..{top}` is out of bounds or splits a character (len {} bytes)", s.len())
+                };
+
+                result.push_str(head);
+                result.push_str(tail);
 
                 Ok((Some(Primitive::Str(result)), None))
             }
